@@ -198,25 +198,28 @@ theorem pdbAtomOfProps_keep (excl : List (List Char)) (ignh : Bool) (p : Props) 
   unfold pdbAtomOfProps at h
   by_cases hc : p.str .charge ≠ []
   · simp [hc, bind, Except.bind, throw, throwThe, MonadExceptOf.throw] at h
-  · by_cases h1 : p.str .altloc ≠ [] ∧ p.str .altloc ≠ ['A']
-    · by_cases he : p.str .element = []
-      · cases hf : firstAlpha (p.str .atomname) <;>
-          simp [hc, he, hf, h1, bind, Except.bind, pure, Except.pure] at h
-      · simp [hc, he, h1, bind, Except.bind, pure, Except.pure] at h
-    · by_cases he : p.str .element = []
-      · cases hf : firstAlpha (p.str .atomname) with
-        | error e => simp [hc, he, hf, bind, Except.bind, pure, Except.pure] at h
-        | ok c =>
-          simp [hc, he, hf, h1, bind, Except.bind, pure, Except.pure] at h
+  · by_cases hn : p.isNan .x = true ∨ p.isNan .y = true ∨ p.isNan .z = true ∨ p.isNan .occupancy = true ∨
+        p.isNan .temp_factor = true
+    · simp [hc, hn, bind, Except.bind, throw, throwThe, MonadExceptOf.throw] at h
+    · by_cases h1 : p.str .altloc ≠ [] ∧ p.str .altloc ≠ ['A']
+      · by_cases he : p.str .element = []
+        · cases hf : firstAlpha (p.str .atomname) <;>
+            simp [hc, hn, he, hf, h1, bind, Except.bind, pure, Except.pure] at h
+        · simp [hc, hn, he, h1, bind, Except.bind, pure, Except.pure] at h
+      · by_cases he : p.str .element = []
+        · cases hf : firstAlpha (p.str .atomname) with
+          | error e => simp [hc, hn, he, hf, bind, Except.bind, pure, Except.pure] at h
+          | ok c =>
+            simp [hc, hn, he, hf, h1, bind, Except.bind, pure, Except.pure] at h
+            split at h
+            · simp at h
+            · simp only [Except.ok.injEq, AtomResult.keep.injEq] at h
+              subst h; simp
+        · simp [hc, hn, he, h1, bind, Except.bind, pure, Except.pure] at h
           split at h
           · simp at h
           · simp only [Except.ok.injEq, AtomResult.keep.injEq] at h
             subst h; simp
-      · simp [hc, he, h1, bind, Except.bind, pure, Except.pure] at h
-        split at h
-        · simp at h
-        · simp only [Except.ok.injEq, AtomResult.keep.injEq] at h
-          subst h; simp
 
 theorem Props.get_of_mem (p : Props) (n : FName) (v : RVal) (hm : (n, v) ∈ p) (hnd : (p.map Prod.fst).Nodup) :
     p.get n = some v := by
